@@ -6,7 +6,7 @@ CONSTANTS
   MaxDepth = 4
   Alphabet <- AlphaCore
   MaxToks = 1
-  USize = 3
+  USize = 2
 SPECIFICATION SpecTrees
 INVARIANT OrIff
 INVARIANT AndOnlyIfBoth
